@@ -56,6 +56,14 @@ def threaded_scenario(draw) -> Dict[str, Any]:
         elif kind == 'sleep':
             op['ms'] = draw(st.sampled_from([1, 50, 200, 500, 1300]))
         ops.append(op)
+    if draw(st.integers(0, 3)) == 0:
+        # close() first withdraws what is registered and then joins the browser threads, which takes as long as their listeners
+        # do - while the loop thread goes on: a registration made on another thread may complete in that time
+        ops = [{'op': 'browser', 'type': 1, 'slow_ms': 100}] + \
+              [{'op': 'announce', 'type': 1, 'n': 4} for _ in range(draw(st.integers(1, 3)))] + \
+              [{'op': 'register', 'svc': 0, 'bg': True}]
+        return {'kind': 'threaded', 'jitter': draw(st.integers(0, 10**6)), 'ops': ops,
+                'close_after_ms': draw(st.sampled_from([0, 50, 150, 300])), 'how': draw(st.sampled_from(['close', 'with'])), 'post_traffic': 0}
     return {'kind': 'threaded', 'jitter': draw(st.integers(0, 10**6)), 'ops': ops,
             'close_after_ms': draw(st.sampled_from([0, 0, 1, 20, 100, 180, 400, 600, 1000])),
             'how': draw(st.sampled_from(['close', 'close', 'with'])),
